@@ -11,7 +11,8 @@ EXPECTED_STDOUT = [('replay_parser.py', '<module>'), ('replay_unpack/replay_read
 def exotic_roster(consts):
     """legal values of every kind a pickled player record may carry (the client pickles whatever its Python holds): sets, frozensets, raw bytes,
     tuples, complex, None, nested containers with bytes inside - for every mapped field except the five the summary is keyed on"""
-    exo = [{1, 2}, frozenset([3]), b'\xff\xfe', (1, 'a'), 2 + 3j, None, 1.5, [b'x', {'k': b'v'}], {'s': {4}}, True]
+    exo = [{1, 2}, frozenset([3]), b'\xff\xfe', (1, 'a'), 2 + 3j, None, 1.5, [b'x', {'k': b'v'}], {'s': {4}}, True,
+           {1: 'A_Hull', 'engine': 'AB_Engine'}, {None: 1, 'a': 2, 3.5: 'x', True: 'y'}, {1: 'x', '1': 'y'}]       # dict keys of several JSON-legal kinds at once
     keys = [k for k in consts.id_property_map.values() if k not in ('id', 'name', 'shipId', 'teamId', 'avatarId')]
     return {k: exo[i % len(exo)] for i, k in enumerate(sorted(keys))}
 
@@ -21,6 +22,12 @@ def cyclic_roster(consts):
     keys = sorted(k for k in consts.id_property_map.values() if k not in ('id', 'name', 'shipId', 'teamId', 'avatarId'))
     l = [1, 2, 3]; l.append(l); d = {'n': 1}; d['self'] = d
     return {keys[0]: l, keys[-1]: d}
+
+
+def py2_roster(consts):
+    """what a Python-2 client really pickles: `str` values, non-ASCII names, dict-valued fields with `str` keys"""
+    keys = sorted(k for k in consts.id_property_map.values() if k not in ('id', 'name', 'shipId', 'teamId', 'avatarId'))
+    return {'name': 'Моряк_1', keys[0]: 'Клан', keys[-1]: {'engine': 'AB_Engine', 'hull': 1}}
 
 
 def byteskey_roster(consts):
@@ -139,6 +146,18 @@ def run(ctx):
                 ctx.deviation('cyclic-value', {'class': 'cyclic-value', 'channel': 'pickled-player-record', 'unicodize': uses_unicodize},
                               dict(kind='not-serialisable', version='wows/' + v, exception='%s: %s' % (type(ex).__name__, str(ex)[:200]), players_info_uses_unicodize=uses_unicodize,
                                    how='a synthetic battle whose pickled player records hold a list and a dict that contain themselves; json.dumps(get_info(), cls=DefaultEncoder)'))
+        # rosters pickled the way a Python-2 client pickles them (str opcodes, non-ASCII names, str-keyed dicts), every representative version:
+        # whatever the version's controller makes of them (decodes, keeps bytes, skips the packet), the summary serialises
+        for v in wv:          # EVERY bundled version: the handling of these pickles lives in each version's own controller / players_info
+            p = os.path.join(tmp, 'py2-%s.wowsreplay' % v)
+            b, vs = battle.build_wows(v, random.Random(8), join=True, roster_extra=py2_roster, dumps=lambda o: battle.py2_dumps(battle.to_py2(o)))
+            battle.write_replay(p, 'wowsreplay', {'clientVersionFromXml': vs}, b.stream())
+            ctx.case(('py2-pickles', v)); ctx.count('cli:py2-pickles')
+            info = ReplayParser(p, strict=False).get_info()
+            try: json.dumps(info, cls=DefaultEncoder)
+            except Exception as ex:
+                ctx.violation(dict(kind='not-serialisable', version='wows/' + v, exception='%s: %s' % (type(ex).__name__, str(ex)[:200]),
+                                   how='a synthetic battle whose rosters are pickled the way a Python-2 client does (tools/battle.py2_dumps: str opcodes, the name "Моряк_1", a str-keyed dict); json.dumps(get_info(), cls=DefaultEncoder)'))
         # probe: a dict with bytes keys inside a pickled player record (what a Python-2 client's str-keyed dict becomes)
         for v in picks[:2] + picks[-1:]:
             p = os.path.join(tmp, 'bk-%s.wowsreplay' % v)
